@@ -338,3 +338,12 @@ def search (s : Index) (q : VecRef) (k : Nat) : List Hit :=
 
 end Algo
 end Anndb
+
+namespace Anndb
+/-- `Save` followed by `Load` (into a fresh or a used index): links to tombstoned vertices
+are not written, tombstoned vertices are not written, everything else is restored as it was.
+(The byte-level codec is C08's subject; this is its effect on the graph.) -/
+def Index.reload (s : Index) : Index :=
+  { s with verts := fun v => (s.verts v).map fun x =>
+      { x with edges := fun l => (x.edges l).filter fun e => !s.isDeleted e.1 } }
+end Anndb
